@@ -166,23 +166,23 @@ Definition is_ctl_op (opcode : N) : bool := (opcode =? OP_PING) || (opcode =? OP
 Definition op_wf (rc : cfg) (o : sop) : bool :=
   match o with
   | Send opcode p override _ =>
-    ((is_data_op opcode && ((override =? 0) || ((9 <=? override) && (override <=? 15)))
-      && (negb (opcode =? OP_TEXT) || negb (decode_text rc) || utf8_valid p))
-     || (is_ctl_op opcode && (lenN p <=? 125)))
-    && (lenN p <=? MAX_PAYLOAD_LEN)
+    (is_data_op opcode && ((override =? 0) || ((9 <=? override) && (override <=? 15)))
+     && (negb (opcode =? OP_TEXT) || negb (decode_text rc) || utf8_valid p))
+    || (is_ctl_op opcode && (lenN p <=? 125))
   | Close code reason _ =>
     (code <? 65536) && negb (close_code_bad code) && utf8_valid reason && (lenN reason <=? 123)
   end.
 
 (* size limit of the peer: the wire payload must pass the pre-buffering test, the message the post-inflate test *)
 Definition fits (rc : cfg) (o : sop) (wlen : N) : bool :=
-  match o with
-  | Send opcode p _ _ =>
-    if is_data_op opcode then
-      (max_msg_size rc =? 0) || ((wlen <? max_msg_size rc) && (lenN p <=? max_msg_size rc))
-    else true
-  | Close _ _ _ => true
-  end.
+  (wlen <=? MAX_PAYLOAD_LEN)                 (* a frame length the reader can represent (sys.maxsize) *)
+  && match o with
+     | Send opcode p _ _ =>
+       if is_data_op opcode then
+         (max_msg_size rc =? 0) || ((wlen <? max_msg_size rc) && (lenN p <=? max_msg_size rc))
+       else true
+     | Close _ _ _ => true
+     end.
 
 Definition all_fit (rc : cfg) (sent : list (sop * N)) : bool :=
   forallb (fun x => fits rc (fst x) (snd x)) sent.
